@@ -454,31 +454,7 @@ class C03(Check):
                                     (item.type.endswith('type-selector') or item.type.endswith('universal')):
                                 # parsed before the sheet had a default namespace: written `|name`
                                 regs.add('C03-default-namespace-after-selectors')
-                if r.type == S.RULE.IMPORT_RULE and r.name is not None and not any(i.type == 'name' for i in r.seq):
-                    # the name setter only replaces an existing name item
-                    regs.add('C03-import-name-setter')
-                if r.type in (S.RULE.IMPORT_RULE, S.RULE.MEDIA_RULE):
-                    for it in r.media:
-                        mt = getattr(it.value, 'mediaText', '')
-                        if mt.count('(') != mt.count(')'):
-                            # MediaQuery.mediaType = x on a query that starts with an expression overwrites its "("
-                            regs.add('C03-mediaquery-mediatype-setter')
                 if r.type == S.RULE.PAGE_RULE:
-                    st, hit = 'start', False
-                    for t in self.tk.tokenize(r.selectorText):
-                        if t[0] == 'S':
-                            continue
-                        if t[0] == 'IDENT' and st == 'start':
-                            st = 'named'
-                        elif t[0] == 'COMMENT' and st in ('named', 'named-comment'):
-                            st = 'named-comment'
-                        elif t[0] == 'CHAR' and t[1] == ':' and st == 'named-comment':
-                            hit = True
-                        elif t[0] != 'COMMENT':
-                            st = 'other'
-                    if hit:
-                        # a comment between page name and pseudo-page gets a space behind it
-                        regs.add('C03-page-selector-comment')
                     margins = [m.margin for m in r.cssRules]
                     if len(set(margins)) != len(margins):
                         # add() / insertRule() do not merge a second block for the same margin box, the parser does
